@@ -15,7 +15,7 @@ import (
 // `fn.*` ops for the functions /verif/gen regenerates into Generated/Funcs{Tak,Sym,AI,FPA}.lean: each op runs
 // the real function; the Lean side evaluates the regenerated definition (Driver/OpsFnGen.lean).  Generators:
 // FNTAK (pieces: C01, C02), FNOVER (flood, flat count, game end: C02), FNMOVE (Slides.Len, Move methods: C05, C14, C20),
-// FNSYM (C14, C15), FNAI (C05), FNFPA (C20).
+// FNSYM (C14, C15), FNAI (C05), FNFPA (C20), FNEVAL (terminal scores: C18).
 
 func i8(s string) int8 { return int8(atoi(s)) }
 
@@ -79,6 +79,9 @@ func init() {
 	opTable["fn.tesuff"] = func(s *Session, a []string) string {
 		return strconv.Itoa(b2i(ai.VerifTeSuffices(int64(atoi(a[0])), byte(atoi(a[1])), i8(a[2]), atoi(a[3]), int64(atoi(a[4])), int64(atoi(a[5])))))
 	}
+	// the terminal scores: same Go calls as `evalterm` / `evalwinner` (ops_eval.go); the Lean side evaluates Gen.*
+	opTable["fn.evalterm"] = func(s *Session, a []string) string { return opTable["evalterm"](s, a) }
+	opTable["fn.evalwinner"] = func(s *Session, a []string) string { return opTable["evalwinner"](s, a) }
 	opTable["fn.centered"] = func(s *Session, a []string) string {
 		p := posOfSize(atoi(a[0]))
 		m := tak.Move{X: i8(a[1]), Y: i8(a[2]), Type: tak.PlaceFlat}
@@ -343,7 +346,47 @@ func genFNFPA(c *Ctx) {
 	}
 }
 
+func genFNEVAL(c *Ctx) {
+	n := c.Scale(3000, 300000)
+	for k := 0; k < n; k++ {
+		size := 3 + c.R.Intn(6)
+		var p *tak.Position
+		switch c.R.Intn(5) {
+		case 0, 1:
+			p = roadBoard(c.R, size)
+		case 2:
+			p = flatBoard(c.R, size)
+		case 3:
+			p = wrapReserves(c.R, randomPosition(c.R))
+		default:
+			p = randomPosition(c.R)
+		}
+		if p == nil {
+			continue
+		}
+		tok := encPos(p)
+		w := "default"
+		switch c.R.Intn(4) {
+		case 0:
+			w = randWeights(c.R)
+		case 1:
+			w = "easy"
+		}
+		out := c.Emit("fn.evalterm " + w + " " + tok)
+		switch {
+		case out == "0":
+			c.Count("evalterm:zero")
+		case strings.HasPrefix(out, "-"):
+			c.Count("evalterm:neg")
+		default:
+			c.Count("evalterm:pos")
+		}
+		c.Count("evalwinner=" + c.Emit("fn.evalwinner "+tok))
+	}
+}
+
 func init() {
+	genTable["FNEVAL"] = genFNEVAL
 	genTable["FNTAK"] = genFNTAK
 	genTable["FNMOVE"] = genFNMOVE
 	genTable["FNOVER"] = genFNOVER
